@@ -421,6 +421,30 @@ func largeItems() []item {
 	return its
 }
 
+// hugeCallItems / hugeCallHistory: ONE apply call whose writes exceed 16 MiB (many entries applied
+// together, as in log replay or follower catch-up): eight plain 2 MiB puts, a transaction of three
+// puts, two put batches of three 1 MiB pairs. Whatever the implementation does to bound its batch, a
+// crash must expose entries of the call only whole, in order, with their index.
+func hugeCallItems() []item {
+	v2 := strings.Repeat("H", 2<<20)
+	v1 := strings.Repeat("h", 1<<20)
+	var call []*regattapb.Command
+	for i := 0; i < 8; i++ {
+		call = append(call, Put(fmt.Sprintf("huge-%d", i), v2, false))
+	}
+	call = append(call,
+		Txn(nil, Ops(OpPut("txn-a", v2, false), OpPut("txn-b", "b", false), OpPut("txn-c", "c", false)), nil),
+		PutBatch("batch1-a", v1, "batch1-b", v1, "batch1-c", v1),
+		PutBatch("batch2-a", v1, "batch2-b", v1, "batch2-c", v1),
+		Put("after", "x", false))
+	return append(items(), item{"one-apply-call-of-27MiB(8 puts, txn of 3 puts, 2 put batches, put)", call})
+}
+
+func hugeCallHistory() []int {
+	n := len(items())
+	return []int{0, n + 1 + ctlSync, n} // put, Sync (controls follow the n+1 items), the huge call
+}
+
 func largeHistory() []int {
 	n := len(items())
 	var steps []int
@@ -560,16 +584,21 @@ func Run(r *evid.Run) {
 	if r.Thorough() {
 		depth = 3
 	}
-	r.Rule(fmt.Sprintf("histories = every sequence of length 0..%d over %d steps (10 apply calls: put, overwrite, delete, range delete, two-put transaction, put batch, sequence with leader index, two entries in one call, and two that write no user data - a no-op with leader index and a transaction that fails into an empty branch; 4 controls: Sync, clean close+reopen, snapshot install from a donor one entry ahead in both formats), starting from a never-opened table on a strict in-memory FS with only the base directory durable. For EVERY mutating FS operation boundary k (create/write/sync/rename/remove/link/mkdir/dir-sync, first open and final close included) the history is re-run with syncs ineffective from k on, unsynced state dropped, the table reopened and checked (index = stored index, content = model prefix at that index, not inside an apply call, >= last completed sync/close/install, leader index), the rest of the log re-applied and compared with the no-crash run. Every crash point is explored twice: as a power loss (unsynced state dropped) and as a crash of the process (everything handed to the file system before the point survives, synced or not; later operations are lost). Plus one memtable-filling history (20 apply calls of a small plain put followed by a 1MiB put with prev_kv, no sync: pebble flushes on its own in between) with the same enumeration of crash points. Thorough adds a second crash at every operation of the recovery+re-apply phase for histories of length <= 2. Non-trivial: every case (each is a distinct (history, crash point)); distinct = distinct (history, crash point, recovered index) triples", depth, na))
+	r.Rule(fmt.Sprintf("histories = every sequence of length 0..%d over %d steps (10 apply calls: put, overwrite, delete, range delete, two-put transaction, put batch, sequence with leader index, two entries in one call, and two that write no user data - a no-op with leader index and a transaction that fails into an empty branch; 4 controls: Sync, clean close+reopen, snapshot install from a donor one entry ahead in both formats), starting from a never-opened table on a strict in-memory FS with only the base directory durable. For EVERY mutating FS operation boundary k (create/write/sync/rename/remove/link/mkdir/dir-sync, first open and final close included) the history is re-run with syncs ineffective from k on, unsynced state dropped, the table reopened and checked (index = stored index, content = model prefix at that index, not inside an apply call, >= last completed sync/close/install, leader index), the rest of the log re-applied and compared with the no-crash run. Every crash point is explored twice: as a power loss (unsynced state dropped) and as a crash of the process (everything handed to the file system before the point survives, synced or not; later operations are lost). Plus one memtable-filling history (20 apply calls of a small plain put followed by a 1MiB put with prev_kv, no sync: pebble flushes on its own in between) with the same enumeration of crash points, and one history whose last apply call writes 27MiB (8 plain 2MiB puts, a transaction of three puts, two put batches, a put). Thorough adds a second crash at every operation of the recovery+re-apply phase for histories of length <= 2. Non-trivial: every case (each is a distinct (history, crash point)); distinct = distinct (history, crash point, recovered index) triples", depth, na))
 	total := par.SeqCount(na, depth)
-	done := par.For(total+1, r.Expired, func(i int64) {
+	done := par.For(total+2, r.Expired, func(i int64) {
 		if i == 0 {
 			// scheduled first: the longest single history
 			runHistoryFam(r, "large", largeItems(), largeHistory(), false, "large/")
 			r.AddExtra("histories", 1)
 			return
 		}
-		i--
+		if i == 1 {
+			runHistoryFam(r, "huge-call", hugeCallItems(), hugeCallHistory(), false, "huge-call/")
+			r.AddExtra("histories", 1)
+			return
+		}
+		i -= 2
 		steps := par.SeqAt(na, depth, i)
 		RunHistory(r, its, steps, r.Thorough() && len(steps) <= 2)
 		r.AddExtra("histories", 1)
@@ -577,7 +606,7 @@ func Run(r *evid.Run) {
 			r.Sample(map[string]any{"history": descr(its, steps), "crash_points": "every op boundary"})
 		}
 	})
-	if done < total+1 {
+	if done < total+2 {
 		r.Cap(fmt.Sprintf("deadline: %d of %d histories", done, total))
 	}
 	r.Assume("fault model of the property: file data durable up to the file's last sync, directory entries up to the directory's last sync (pebble strict MemFS); no torn writes inside a synced file")
@@ -592,6 +621,9 @@ func Replay(raw json.RawMessage) (string, bool) {
 	its := items()
 	if c.Family == "large" {
 		its = largeItems()
+	}
+	if c.Family == "huge-call" {
+		its = hugeCallItems()
 	}
 	p := mkPlan(its, c.Steps)
 	env := fsmx.NewEnv()
